@@ -205,10 +205,10 @@ HARNESSES = [
          cut_statics={"misc/mke2fs.c": ["PRS", "show_stats", "read_bb_file", "test_disk", "handle_bad_blocks", "packed_allocate_tables",
                                          "write_inode_tables", "create_root_dir", "create_lost_and_found", "reserve_inodes",
                                          "create_bad_block_inode", "create_journal_dev", "fix_cluster_bg_counts",
-                                         "create_quota_inodes"]},
+                                         "create_quota_inodes", "zap_sector"]},
          extra_src=["lib/ext2fs/blknum.c", "lib/ext2fs/io_manager.c"],
-         funcs=["vf_real_main", "mke2fs_discard_device", "zap_sector", "should_do_undo", "mke2fs_setup_tdb"],
-         configs=[{"STOP_AT": 5}],
+         funcs=["vf_real_main", "mke2fs_discard_device", "should_do_undo", "mke2fs_setup_tdb"],
+         configs=[{}, {"STRS": 1}, {"STRS": 3}, {"STRS": 4}],
          unwind=6, unwindset=["mke2fs_discard_device.0:5", "strlen.0:10", "strcpy.0:10", "strcmp.0:12", "strcasecmp.0:8",
                               "strncpy.0:70", "memcmp.0:17", "strchr.0:6", "io_channel_set_options.0:3", "vf_real_main.0:17",
                               "vf_real_main.1:3", "vf_real_main.2:3", "vf_real_main.3:3", "vf_real_main.4:3", "memset.0:70", "vf_fill16.0:17"],
